@@ -314,6 +314,12 @@ class Parser:
                     flag = True
 
                 case TokenType.OR:
+                    if not flag:  # the split starts with an empty alternative
+                        self._parse_subtree(current)
+                        self._assert_and_cunsume(TokenType.BRACKET_RIGHT)
+                        flag = True
+                        continue
+
                     current = root
                     self._read_token()
                     flag = True
